@@ -392,11 +392,22 @@ type liveCase struct {
 // plan derives the reply framing of every element and which element replies.
 func (lc liveCase) plan() (kinds []replyKind, names []string, quitReplies bool) {
 	out := tNull
+	lastConn := tNull
 	for _, e := range lc.Stream.Elems {
+		if e.Proto == "bad" {
+			// netServe answers a framing error with one error line iff the last
+			// executed command came over RESP/telnet, then closes
+			if lastConn == tRESP {
+				kinds = append(kinds, rkRESP)
+				names = append(names, "protocol-error")
+			}
+			break
+		}
 		m, _ := e.Expect()
 		if m == nil {
 			continue
 		}
+		lastConn = m.ConnType
 		if out == tNull {
 			out = m.OutputType
 		}
@@ -640,6 +651,15 @@ func runLive(t failer, c *ev.Collector, lc liveCase) (inside int) {
 	}
 	if len(ref) != len(got) {
 		fail("reply-count", fmt.Sprintf("uncut run gave %d replies, cut run %d", len(ref), len(got)))
+	}
+	// the visible dataset must not depend on the segmentation either
+	dA, errA := t38.TakeDumpOn(ctlA)
+	dB, errB := t38.TakeDumpOn(ctlB)
+	if errA != nil || errB != nil {
+		t.Fatalf("harness: dump after the case: %v %v", errA, errB)
+	}
+	if dA.Canon() != dB.Canon() {
+		fail("cut-changes-dataset", fmt.Sprintf("after the uncut run (A) and the run with %d cuts (B) the datasets differ: %s", len(lc.Cuts), clip(dA.Diff(dB), 400)))
 	}
 	// order markers (independent of the twin)
 	ri := 0
